@@ -259,6 +259,15 @@ def long_samples(ctx, with_model=True):
                 f = check_run(ctx, cfg, dev, kw, ref, k, N, (ref.times[N - 1] + ref.times[N]) / 2, with_model=with_model)
             ctx.count("long_samples")
             first = first or f
+    # very small (legitimate) time steps: the time labels of neighbouring frames differ by less than any default
+    # floating-point comparison tolerance, and yet each frame has its own time
+    tiny = dict(name="fixed_tiny_dt", dev="bar", opts=dict(dt_init=1e-9, adaptive=False), kw=dict(applied_vector_potential=0.4, terminal_currents={"source": 3.0, "drain": -3.0}))
+    dev, kw = build(tiny, ctx.rng)
+    ref = ReferenceT(dev, runs.options(save_every=1000, solve_time=1e9, **tiny["opts"]), 9, sched=False, **kw)
+    for k, N in [(3, 5), (2, 7), (3, 6)] if ctx.quick else [(3, 5), (2, 7), (3, 6), (5, 8), (1, 4), (4, 7)]:
+        f = check_run(ctx, tiny, dev, kw, ref, k, N, (ref.times[N - 1] + ref.times[N]) / 2, with_model=with_model)
+        ctx.count("tiny_step_samples")
+        first = first or f
     return first
 
 
